@@ -186,6 +186,34 @@ fn main() {
             }
         }
     }
+    // phase 3: two DIFFERENT whitespace characters facing each other (whitespace may not be
+    // substituted by other whitespace either): pairs over {a, X, Y} with (X, Y) every ordered pair of
+    // distinct characters from space, tab, NBSP, U+3000 and the all-whitespace cluster CR LF
+    let xy_all = strings(&["a", "X", "Y"], run.pick(3, 4));
+    let xy_chars = [" ", "\t", "\u{a0}", "\u{3000}", "\r\n"];
+    let base3 = all.len() + ws_chars.len() * ws_all.len();
+    run.bounds.insert("distinct_whitespace_phase".into(), json!(format!("all pairs of the {} strings over [a, X, Y] x (X, Y) every ordered pair of distinct members of {xy_chars:?} x all flags", xy_all.len())));
+    let mut unit3 = base3;
+    for x in xy_chars {
+        for y in xy_chars {
+            if x == y {
+                continue;
+            }
+            for a in &xy_all {
+                unit3 += 1;
+                if !run.unit((unit3 - 1) as u64) {
+                    continue;
+                }
+                let a = a.replace('X', x).replace('Y', y);
+                for b in &xy_all {
+                    let b = b.replace('X', x).replace('Y', y);
+                    for flags in 0..8u32 {
+                        check(&mut run, &a, &b, flags & 1 != 0, flags & 2 != 0, flags & 4 != 0);
+                    }
+                }
+            }
+        }
+    }
     for (ia, a) in all.iter().enumerate() {
         if !run.unit(ia as u64) {
             continue;
